@@ -8,6 +8,7 @@ import (
 	"math/big"
 	"os"
 	"os/exec"
+	"sort"
 	"strings"
 	"time"
 
@@ -384,9 +385,85 @@ func c12Seq(tier string, shard, n int, deadline time.Time, res *Result) {
 	}
 }
 
+// c12Interleave: the offender's connection is closed for invalid input while valid requests of its own are still
+// unanswered at the nodes; a witness then uses the same node connections (and whatever objects the offender's requests
+// left behind); the offender's late replies arrive before, between and after the witness's. The witness must be served
+// its own data, under every interleaving within the bound.
+func c12Interleave(tier string) []*world.Scenario {
+	b := 2
+	if tier == "thorough" {
+		b = 4
+	}
+	var out []*world.Scenario
+	garbage := map[string]string{"inline": "PING\r\n", "zero-count": "*0\r\n", "bulk-first": "$3\r\nfoo\r\n", "neg-bulk": "*2\r\n$3\r\nget\r\n$-1\r\n", "text": "GARBAGE\r\n"}
+	var gn []string
+	for n := range garbage {
+		gn = append(gn, n)
+	}
+	sort.Strings(gn)
+	for _, valid := range []string{"get", "mget", "get-get"} {
+		for _, g := range gn {
+			if tier != "thorough" && valid != "get" && g != "inline" && g != "zero-count" {
+				continue
+			}
+			held := []string{keysA[6]}
+			var data []byte
+			switch valid {
+			case "get":
+				data = GetReq(keysA[6]).Bytes
+			case "mget":
+				data = MGetReq(keysA[6], keysC[6]).Bytes
+				held = append(held, keysC[6])
+			default:
+				data = append(append([]byte{}, GetReq(keysA[6]).Bytes...), GetReq(keysB[6]).Bytes...)
+				held = append(held, keysB[6])
+			}
+			off := world.ClientSpec{Chunks: []world.Chunk{{Data: append(append([]byte{}, data...), garbage[g]...)}}, Reqs: [][]byte{data}}
+			w1, w2, w3 := GetReq(keysA[8]), GetReq(keysB[8]), MGetReq(keysA[9], keysC[9])
+			wit := ClientOf([]Req{w1, w2, w3}, true)
+			wit.Chunks[0].Gate = func(w *world.World) bool { return w.Clients[0].Sock.Closed }
+			sc := &world.Scenario{Nodes: T3m(), Bound: b, Family: "offender-with-requests-in-flight", Horizon: 300, ReadCap: 256, WriteCap: 256,
+				Clients: []world.ClientSpec{off, wit}, Ticks: []time.Duration{time.Millisecond}, ReuseFds: true}
+			hk := map[string]bool{}
+			for _, k := range held {
+				hk[k] = true
+			}
+			sc.Reply = func(w *world.World, bc *world.BConn, args [][]byte) ([]byte, int) {
+				if len(args) > 1 && hk[string(args[1])] {
+					return world.DefaultReply(world.Lower(args[0]), args), 1 // the offender's replies come late
+				}
+				return nil, 0
+			}
+			sc.TickGate = func(w *world.World) bool { return len(w.Clients) > 1 && w.Clients[1].DeliveredChunks() >= 1 }
+			sc.Name = fmt.Sprintf("C12/in-flight/%s+%s/d%d", valid, g, b)
+			sc.Check = func(w *world.World) []world.Violation {
+				if vs := BackendsWellFormed(w); len(vs) > 0 {
+					return vs
+				}
+				wc := w.Clients[1]
+				rs, rest, mal := world.SplitReplies(wc.Received)
+				ok := !mal && len(rest) == 0 && len(rs) == 3 && !wc.ProxyClosed
+				for j := 0; ok && j < 3; j++ {
+					ok = bytes.Equal(rs[j], wc.Spec.Expect[j])
+				}
+				if !ok {
+					return []world.Violation{{Sig: "witness-disturbed", Msg: fmt.Sprintf("a client was closed for invalid input with requests in flight; the witness connection then received %q (closed=%v), expected %q", wc.Received, wc.ProxyClosed, bytes.Join(wc.Spec.Expect, nil))}}
+				}
+				if !w.Clients[0].ProxyClosed {
+					return []world.Violation{{Sig: "stalled-on-unviable-residue", Msg: "the offender was neither closed nor answered with an error"}}
+				}
+				return nil
+			}
+			out = append(out, sc)
+		}
+	}
+	return out
+}
+
 func init() {
 	register(&Check{ID: "C12", Level: "model_checking",
-		Rule: "(a) EVERY byte string up to length 4 (thorough 6) over {* $ - 0 1 2 9 CR LF g}; (b) for 12 valid requests EVERY single-position deletion, insertion and substitution (quick: from a 5-symbol subset; thorough: full alphabet, each also in every single-cut segmentation) and EVERY replacement of every count/length field by {empty, 0, -1, -2, 00, 01, +1, 1a, ' 1', '1 ', 2^31, 2^63, 10^20, -0}; (c) every proper prefix; (d) huge array counts in a child process under a 4 GiB address-space limit; each input is sent by one client while a witness client does GET and split MGET round trips before and after; oracle: no panic / fatal / livelock, witness replies correct, every byte sequence any node received parses under the strict Redis request grammar, and the offending connection ends closed, answered with an error, or holding a proper prefix of a valid request; distinct = observable outcomes",
-		Gen:  c12Gen, FromName: c12FromName, Seq: c12Seq, BudgetQuick: 100, BudgetThorough: 1500,
+		Rule:      "(a) EVERY byte string up to length 4 (thorough 6) over {* $ - 0 1 2 9 CR LF g}; (b) for 12 valid requests EVERY single-position deletion, insertion and substitution (quick: from a 5-symbol subset; thorough: full alphabet, each also in every single-cut segmentation) and EVERY replacement of every count/length field by {empty, 0, -1, -2, 00, 01, +1, 1a, ' 1', '1 ', 2^31, 2^63, 10^20, -0}; (c) every proper prefix; (d) huge array counts in a child process under a 4 GiB address-space limit; each input is sent by one client while a witness client does GET and split MGET round trips before and after; oracle: no panic / fatal / livelock, witness replies correct, every byte sequence any node received parses under the strict Redis request grammar, and the offending connection ends closed, answered with an error, or holding a proper prefix of a valid request; distinct = observable outcomes; (e) offender closed for invalid input (inline command, *0, bulk first, null bulk, text) while valid requests of its own (GET, split MGET, two GETs) are unanswered at the nodes, a witness then using the same node connections, the offender's late replies arriving at every position within the deviation bound",
+		Scenarios: c12Interleave,
+		Gen:       c12Gen, FromName: c12FromName, Seq: c12Seq, BudgetQuick: 100, BudgetThorough: 1500,
 		Assumptions: []string{"strict grammar = what a Redis server accepts from RESP clients without answering 'Protocol error' (canonical decimal lengths, count >= 1); '*0' / '*-n' lines, which Redis skips silently, may be skipped, answered with an error or lead to a close"}})
 }
